@@ -1,3 +1,4 @@
+(* use: f64glue *)
 (* C18 model driver: same case language as harness/drv_C18.cpp.  Before "##": the model that
    mirrors util.cpp; after "##": the specification (units as parts, brute-force grammar). *)
 let arg t = cstr (dec_str t)
@@ -52,5 +53,55 @@ let handle toks = match toks with
     ^ " ## " ^ spec_k (spec_n wa) (spec_scaling pa ua wa pb ub wb)
   | ["sanitize"; s] -> "OK " ^ enc (unitSanitizer (arg s))
   | ["deblank"; s] -> "OK " ^ enc (deblankString (arg s))
+  | ("vscalable" | "setsame") :: rest ->
+    let take_list toks = (match toks with
+        | n :: r -> let n = oint_of_string n in
+          let rec go k r acc = if k = 0 then (OLst.rev acc, r) else (match r with x :: r' -> go (k - 1) r' (arg x :: acc) | [] -> failwith "short list") in
+          go n r []
+        | [] -> failwith "short list") in
+    let (a, r1) = take_list rest in
+    let (b, r2) = take_list r1 in
+    if r2 <> [] then failwith "trailing tokens" else
+    if OLst.hd toks = "setsame" then "OK " ^ bool01 (isSetAtSamePos a b) ^ " ## OK " ^ bool01 (spec_set_same a b)
+    else begin
+      (* specification: different lengths -> false; otherwise the pairs in order, by the raw-string oracle *)
+      let spec =
+        if OLst.length a <> OLst.length b then "OK 0" else
+        let rec go xs ys = (match xs, ys with
+            | x :: xs', y :: ys' -> (match spec_scalable_raw x y with
+                | SVal true -> go xs' ys' | SVal false | SReject -> "OK 0" | SAny -> "ANY")
+            | _, _ -> "OK 1") in
+        go a b in
+      show_bool (isScalableVec a b) ^ " ## " ^ spec
+    end
+  | ["splitc"; s] ->
+    let s = arg s in
+    let show l = "OK " ^ ostring_of_int (OLst.length l) ^ OStr.concat "" (OLst.map (fun a -> " " ^ enc a) l) in
+    (match splitCompoundUnit s with Ok l -> show l | r -> show_err r)
+    ^ " ## " ^ (match spec_split_compound s with Some l -> show l | None -> "ANY")
+  | [("tosec_d" | "tokel_d") as c; u; v] ->
+    let r = if c = "tosec_d" then convertToSeconds_d (arg u) (dec_dbl v) else convertToKelvin_d (arg u) (dec_dbl v) in
+    (match r with
+     | Ok (CExact x) -> "OK " ^ enc_dbl x
+     | Ok (CScaled (x, k)) -> "OK x:" ^ OStr.sub (enc_dbl x) 2 16 ^ ":" ^ string_of_z k
+     | _ -> show_err r)
+  | [("tosec_i" | "tokel_i") as c; u; v] ->
+    let r = if c = "tosec_i" then convertToSeconds_i (arg u) (z_of_string v) else convertToKelvin_i (arg u) (z_of_string v) in
+    (match r with
+     | Ok (CExact n) -> "OK i:" ^ string_of_z n
+     | Ok (CScaled (n, k)) -> "OK y:" ^ string_of_z n ^ ":" ^ string_of_z k
+     | _ -> show_err r)
+  | ["deblank_inplace"; s] -> "OK " ^ enc (deblankString (arg s))
+  | ["namecheck"; s] -> "OK " ^ bool01 (nameCheck (arg s))
+  | ["namesan"; s] -> "OK " ^ enc (nameSanitizer (arg s))
+  | ["chkname"; s] -> (match checkEntityName (arg s) with Ok _ -> "OK ok" | r -> show_err r)
+  | ["chktype"; s] -> (match checkEntityType (arg s) with Ok _ -> "OK ok" | r -> show_err r)
+  | ["chkempty"; s] -> (match checkEmptyString (arg s) with Ok _ -> "OK ok" | r -> show_err r)
+  | ["chknt"; n; ty] -> (match checkEntityNameAndType (arg n) (arg ty) with Ok _ -> "OK ok" | r -> show_err r)
+  (* round trips: the model is the identity *)
+  | ["timert"; n] -> "OK " ^ n
+  | ["numrt"; n] -> "OK " ^ n
+  | ["strnum"; s] -> (match stoi (arg s) with Ok v -> "OK " ^ string_of_z v | _ -> "OK 0")
+  | ["deref"; v] -> if v = "none" then "OK 0 7" else "OK " ^ v ^ " " ^ v
   | _ -> failwith "bad command"
 let () = run_file OSys.argv.(1) handle
